@@ -292,6 +292,20 @@ def readFile4Gen (i : Info) (s1 : σ) : σ × Py (Option (Ndef × Info)) :=
                                 addrs := List.range' i.nlenSize data.length,
                                 lo := i.nlenSize, hi := i.nlenSize + i.capacity.toNat }, i)))
 
+/-- the `try` block of `_read_ndef_data`: `hasattr(self, "_ndef_file") or self._discover_ndef()` first -/
+def readNdef4BodyGen (known : Option Info) (s : σ) : σ × Py (Option (Ndef × Info)) :=
+  match known with
+  | some i => readFile4Gen X i s
+  | none =>
+    match discover4Gen X s with
+    | (s1, .error e) => (s1, .error e)
+    | (s1, .ok none) => (s1, .ok none)
+    | (s1, .ok (some i)) => readFile4Gen X i s1
+
+/-- `Type4Tag.NDEF._read_ndef_data()`; hand-written: `except Type4TagCommandError: return None` (`catch4`) -/
+def readNdef4Gen (known : Option Info) (s : σ) : σ × Py (Option (Ndef × Info)) :=
+  catch4 (readNdef4BodyGen X known s)
+
 end ndef
 
 /-! ## Type 4 Tag NDEF write plan (`Model/T4.lean`) -/
